@@ -369,6 +369,7 @@ func (w *World) SetDelay(s *Sub, d time.Duration) {
 	if w.gin == nil {
 		gin.SetMode(gin.ReleaseMode)
 		r := gin.New()
+		r.ContextWithFallback = true // as the production router does
 		r.Use(middleware.WithEntClient(w.E.Client, middleware.Key()))
 		if err := (&controllers.DelayInjectorController{}).Register(r); err != nil {
 			w.E.T.Fatalf("register delay controller: %v", err)
